@@ -420,7 +420,10 @@ package git
 // Property C29 for Commit: with All the index is rewritten (tracked files are
 // staged) before the commit can be refused as empty; a commit -a that is
 // refused puts the index back as it found it (git builds commit -a in a
-// temporary index and rolls it back).
+// temporary index and rolls it back). What is put back is the index object
+// Commit itself read from the storage before the staging step -- the storage
+// hands every caller its own copy, and the staging step reads its own -- not a
+// value the staging step could have written through.
 //gvc:func (*Worktree).Commit
 //gvc:  props C29
 //gvc:  theory int
@@ -429,6 +432,8 @@ package git
 //gvc:  results h err
 //gvc:  requires nn: w != nil && w.r != nil
 //gvc:  ensures restored: err != nil && calls("autoAddModifiedAndDeleted") == 1 && lastres("autoAddModifiedAndDeleted") == nil ==> calls("SetIndex") >= 1
+//gvc:  sink SetIndex requires snapshot: arg0 == saved && calls("Index") >= 1
+//gvc:  sink autoAddModifiedAndDeleted requires apart: calls("Index") >= 1 && lastres("Index") == nil
 //gvc:end
 
 // The raw filesystem under the wrapper is a capability only the functions
